@@ -16,10 +16,12 @@ RULE = ("accepted counts {none, 0, 1, 2, 3, unlimited} x greedy on/off x all vec
         "toggle letter, toggle, --}, plus seeded random vectors with hostile tokens (-, ---x, -=x, --, "
         "declared spellings, undeclared names, bytes >= 0x80) behind a `--`; every accepted result is "
         "probed with get(i) for all i in [-n-1, n]; distinct_nontrivial = distinct (configuration, vector) "
-        "pairs containing at least one positional candidate or a `--`")
+        "pairs containing at least one positional candidate or a `--`; plus a scale part: 17 ... 70001 "
+        "positionals against unlimited / 65536 / 70000 accepted, every index probed")
 
 CONFIGS = [(None, False), (0, False), (1, False), (1, True), (2, False), (2, True), (3, False), (3, True),
-           ("inf", False), ("inf", True)]
+           ("inf", False), ("inf", True), (65536, False), (70000, True)]
+SCALE_N = [17, 65, 257, 300, 4097, 65535, 65536, 65537, 70000, 70001]
 PRE = [b"p", b"", b"a=b", b"--opt=v", b"--opt", b"-t", b"--tog", b"--", b"--nope", b"=x"]
 POST = [b"-", b"---x", b"-=x", b"--", b"--opt", b"--opt=w", b"-t", b"--nope", b"-z", b"\xff\xfe", b"--=",
         b"-tz", b"p2", b"", b"--no-tog", b"-" * 70]
@@ -38,7 +40,7 @@ def gen(tier, seed, chunk, nch):
     cases = []
     k = 0
     maxlen = 4 if tier == "quick" else 5
-    for ci, (pos, greedy) in enumerate(CONFIGS):
+    for ci, (pos, greedy) in enumerate(CONFIGS[:10]):
         d = _decl(pos, greedy)
         d2 = _decl(pos, greedy, greedy_first=True)
         for L in range(0, maxlen + 1):
@@ -48,9 +50,27 @@ def gen(tier, seed, chunk, nch):
                     continue
                 # both orders of the two configuration calls (they must commute)
                 cases.append({"decl": d2 if (greedy and k % 2) else d, "argv": list(seq), "cfg": ci})
+    # scale: positional counts beyond 16-bit counters and small buffers
+    for ci, (pos, greedy) in enumerate(CONFIGS):
+        if pos not in ("inf", 65536, 70000):
+            continue
+        for n in SCALE_N:
+            if pos != "inf" and abs(n - pos) > 1:
+                continue
+            for shape in range(3):
+                k += 1
+                if k % nch != chunk:
+                    continue
+                if tier == "quick" and n > 4097 and shape == 1 and pos == "inf":
+                    continue
+                vals = [b"p%d" % i for i in range(n)]
+                argv = {0: vals, 1: [b"--"] + vals, 2: vals[:n // 2] + [b"--tog", b"--"] + vals[n // 2:]}[shape]
+                if greedy and shape == 2:
+                    argv = [b"--tog"] + vals
+                cases.append({"decl": _decl(pos, greedy), "argv": argv, "cfg": ci, "scale": True})
     rng = random.Random("c12-%d-%d" % (seed, chunk))
     for _ in range((12000 if tier == "quick" else 120000) // nch):
-        ci = rng.randrange(len(CONFIGS))
+        ci = rng.randrange(10)
         pos, greedy = CONFIGS[ci]
         d = _decl(pos, greedy, greedy_first=rng.random() < 0.5)
         lim = 4 if pos in (None, "inf") else pos
@@ -88,6 +108,8 @@ def evaluate(case, lines, S):
     pos, greedy = CONFIGS[case["cfg"]]
     cfg = "limit=%s:greedy=%d" % (pos, greedy)
     S.counters["cfg:" + cfg] += 1
+    if case.get("scale"):
+        S.counters["scale:positionals>=%d" % max(x for x in [0, 17, 257, 4097, 65536] if x <= len(argv))] += 1
     if any(t == b"--" or not t.startswith(b"-") for t in argv):
         S.distinct.add(optrun.h64(case["cfg"], argv))
     kind, suffix, desc, ex, ob = optoracle.judge(d, {}, argv, line)
@@ -135,7 +157,7 @@ def finish(run, S, tier):
             run.inconc("limit+1 boundary never exercised for " + cfg)
         if pos not in ("inf",) and S.counters.get("boundary:exactly-limit:" + cfg, 0) == 0:
             run.inconc("exactly-limit boundary never exercised for " + cfg)
-    for need in ("hostile-after-dd", "dd-after-option-awaiting-value", "index-probes"):
+    for need in ("scale:positionals>=65536", "hostile-after-dd", "dd-after-option-awaiting-value", "index-probes"):
         if S.counters.get(need, 0) == 0:
             run.inconc("never exercised: " + need)
     return {"index_probes": S.counters.get("index-probes", 0)}
